@@ -194,6 +194,11 @@ enum WorldEntry {
     Fix { name: String, rel: String },
     /// a synthetic symbol map for exactly (name, breakpad id)
     Syn { name: String, id: String, entries: Vec<SynEntry> },
+    /// every fixture file with this base name is served with all occurrences of `from` replaced by `to`
+    /// (same length): the external .dwo / .o / .a files get other function names than the symbol table
+    Patch { base: String, from: Vec<u8>, to: Vec<u8> },
+    /// fixture files with this base name cannot be loaded (a missing external file)
+    Hide { base: String },
 }
 
 fn world_to_line(world: &[WorldEntry]) -> String {
@@ -205,6 +210,8 @@ fn world_to_line(world: &[WorldEntry]) -> String {
             WorldEntry::Syn { name, id, entries } => {
                 s.push_str(&format!(" syn:{}:{}:{}", hx(name), hx(id), hx(&syn_to_text(entries))))
             }
+            WorldEntry::Patch { base, from, to } => s.push_str(&format!(" patch:{}:{}:{}", hx(base), hex(from), hex(to))),
+            WorldEntry::Hide { base } => s.push_str(&format!(" hide:{}", hx(base))),
         }
     }
     s
@@ -217,6 +224,8 @@ fn world_from_line(l: &str) -> Vec<WorldEntry> {
         match f.as_slice() {
             ["sym", n, b] => out.push(WorldEntry::Sym { name: unhx(n), bytes: unhex(b).into() }),
             ["fix", n, r] => out.push(WorldEntry::Fix { name: unhx(n), rel: unhx(r) }),
+            ["patch", b, f, t] => out.push(WorldEntry::Patch { base: unhx(b), from: unhex(f), to: unhex(t) }),
+            ["hide", b] => out.push(WorldEntry::Hide { base: unhx(b) }),
             ["syn", n, i, t] => {
                 out.push(WorldEntry::Syn { name: unhx(n), id: unhx(i), entries: syn_from_text(&unhx(t)) })
             }
@@ -330,7 +339,35 @@ impl FileAndPathHelper for Helper {
                     _ => Err("no such generated file".into()),
                 }
             } else if let Some(rel) = location.0.strip_prefix("fix:") {
-                fixture_bytes(rel).ok_or_else(|| "no such fixture".into())
+                let base = std::path::Path::new(rel).file_name().map(|b| b.to_string_lossy().to_string()).unwrap_or_default();
+                if self.world.iter().any(|e| matches!(e, WorldEntry::Hide { base: b } if *b == base)) {
+                    return Err("hidden fixture".into());
+                }
+                let bytes = fixture_bytes(rel).ok_or("no such fixture")?;
+                let patches: Vec<(&Vec<u8>, &Vec<u8>)> = self
+                    .world
+                    .iter()
+                    .filter_map(|e| match e {
+                        WorldEntry::Patch { base: b, from, to } if *b == base && from.len() == to.len() && !from.is_empty() => Some((from, to)),
+                        _ => None,
+                    })
+                    .collect();
+                if patches.is_empty() {
+                    return Ok(bytes);
+                }
+                let mut v = bytes.to_vec();
+                for (from, to) in patches {
+                    let mut i = 0;
+                    while i + from.len() <= v.len() {
+                        if v[i..i + from.len()] == from[..] {
+                            v[i..i + from.len()].copy_from_slice(to);
+                            i += from.len();
+                        } else {
+                            i += 1;
+                        }
+                    }
+                }
+                Ok(v.into())
             } else {
                 Err("unknown location".into())
             }
@@ -365,9 +402,117 @@ struct CaseSpec {
     world: Vec<WorldEntry>,
     wrapped: bool,
     jobs: Vec<JobSpec>,
+    /// body has both the top-level job (jobs[0]) and a `jobs` list (jobs[1..])
+    both: bool,
+    /// JSON spelling of the body (0 = canonical)
+    spell: u8,
+    /// request sent first on the same symbol manager / Api (0 = none)
+    warm: u8,
 }
 
-fn request_json(wrapped: bool, jobs: &[JobSpec]) -> String {
+#[derive(Clone, Copy, PartialEq, Debug)]
+enum Form {
+    Jobs,
+    Single,
+    Both,
+}
+
+impl CaseSpec {
+    fn new(world: Vec<WorldEntry>, wrapped: bool, jobs: Vec<JobSpec>) -> CaseSpec {
+        CaseSpec { world, wrapped, jobs, both: false, spell: 0, warm: 0 }
+    }
+    fn form(&self) -> Form {
+        if self.both {
+            Form::Both
+        } else if self.wrapped {
+            Form::Jobs
+        } else {
+            Form::Single
+        }
+    }
+}
+
+fn job_numbers_ok(j: &JobSpec) -> bool {
+    j.stacks.iter().flatten().all(|&(m, a)| u32_ok(m) && u32_ok(a))
+}
+
+/// request_json.rs:3-8 (serde untagged): which jobs does the body denote? `None` = parse error.
+fn effective_jobs(form: Form, jobs: &[JobSpec]) -> Option<Vec<JobSpec>> {
+    match form {
+        Form::Jobs => jobs.iter().all(job_numbers_ok).then(|| jobs.to_vec()),
+        Form::Single => (jobs.len() == 1 && job_numbers_ok(&jobs[0])).then(|| jobs.to_vec()),
+        Form::Both => {
+            let (top, list) = jobs.split_first()?;
+            if list.iter().all(job_numbers_ok) {
+                Some(list.to_vec())
+            } else if job_numbers_ok(top) {
+                Some(vec![top.clone()])
+            } else {
+                None
+            }
+        }
+    }
+}
+
+/// The JSON body. `spell`: 0 canonical; 1 whitespace everywhere; 2 `stacks` before `memoryMap` (and `jobs`
+/// last / first); 3 unknown extra keys at every object level; 4 all of these.
+fn request_json(form: Form, spell: u8, jobs: &[JobSpec]) -> String {
+    if spell == 0 && form != Form::Both {
+        return request_json_canonical(form == Form::Jobs, jobs);
+    }
+    let ws = spell == 1 || spell == 4;
+    let swap = spell == 2 || spell == 4;
+    let extra = spell == 3 || spell == 4;
+    let sp = if ws { " \n\t " } else { "" };
+    let job_fields = |j: &JobSpec| -> Vec<String> {
+        let mm: Vec<String> = j
+            .mm
+            .iter()
+            .map(|(n, i)| format!("[{sp}{}{sp},{sp}{}{sp}]", serde_json::to_string(n).unwrap(), serde_json::to_string(i).unwrap()))
+            .collect();
+        let stacks: Vec<String> = j
+            .stacks
+            .iter()
+            .map(|st| format!("[{sp}{}{sp}]", st.iter().map(|(m, a)| format!("[{sp}{m}{sp},{sp}{a}{sp}]")).collect::<Vec<_>>().join(",")))
+            .collect();
+        let mut f = vec![
+            format!("{sp}\"memoryMap\"{sp}:{sp}[{}]{sp}", mm.join(",")),
+            format!("{sp}\"stacks\"{sp}:{sp}[{}]{sp}", stacks.join(",")),
+        ];
+        if swap {
+            f.reverse();
+        }
+        if extra {
+            f.insert(1, "\"symbolSources\":[\"mozilla\",{\"memoryMap\":7}]".to_string());
+            f.push("\"version\":5".to_string());
+        }
+        f
+    };
+    let job_json = |j: &JobSpec| format!("{{{}}}", job_fields(j).join(","));
+    let jobs_field = |js: &[JobSpec]| format!("{sp}\"jobs\"{sp}:{sp}[{}]{sp}", js.iter().map(job_json).collect::<Vec<_>>().join(&format!("{sp},{sp}")));
+    match form {
+        Form::Jobs => {
+            let mut f = vec![jobs_field(jobs)];
+            if extra {
+                f.insert(0, "\"stack\":[[0,1]]".to_string());
+                f.push("\"memorymap\":null".to_string());
+            }
+            format!("{sp}{{{}}}{sp}", f.join(","))
+        }
+        Form::Single => format!("{sp}{}{sp}", job_json(&jobs[0])),
+        Form::Both => {
+            let mut f = job_fields(&jobs[0]);
+            if swap {
+                f.insert(0, jobs_field(&jobs[1..]));
+            } else {
+                f.push(jobs_field(&jobs[1..]));
+            }
+            format!("{sp}{{{}}}{sp}", f.join(","))
+        }
+    }
+}
+
+fn request_json_canonical(wrapped: bool, jobs: &[JobSpec]) -> String {
     let job_json = |j: &JobSpec| -> String {
         let mm: Vec<String> = j
             .mm
@@ -388,8 +533,15 @@ fn request_json(wrapped: bool, jobs: &[JobSpec]) -> String {
     }
 }
 
-fn request_lines(wrapped: bool, jobs: &[JobSpec]) -> Vec<String> {
-    let mut v = vec![format!("form {}", if wrapped { "jobs" } else { "single" })];
+fn request_lines(spec: &CaseSpec) -> Vec<String> {
+    let jobs = &spec.jobs;
+    let mut v = vec![format!("form {}", match spec.form() { Form::Jobs => "jobs", Form::Single => "single", Form::Both => "both" })];
+    if spec.spell != 0 {
+        v.push(format!("spell {}", spec.spell));
+    }
+    if spec.warm != 0 {
+        v.push(format!("warm {}", spec.warm));
+    }
     for j in jobs {
         v.push("job".into());
         for (n, i) in &j.mm {
@@ -496,6 +648,15 @@ fn oracle_lines(world: &[WorldEntry], pairs: &[((String, String), Vec<u32>)], st
                         f.symbol.size.map(|s| s.to_string()).unwrap_or_else(|| "none".into()),
                         hx(&f.symbol.name)
                     );
+                    if kind == "ext" {
+                        if let Some(outer) = f.frames.as_ref().and_then(|fr| fr.last()) {
+                            match &outer.function {
+                                Some(n) if *n != f.symbol.name => stats.bump("oracle_ext_outer_name_differs"),
+                                Some(_) => stats.bump("oracle_ext_outer_name_same"),
+                                None => stats.bump("oracle_ext_outer_name_none"),
+                            }
+                        }
+                    }
                     if kind != "none" {
                         if let Some(frames) = &f.frames {
                             for fr in frames {
@@ -523,8 +684,8 @@ fn oracle_lines(world: &[WorldEntry], pairs: &[((String, String), Vec<u32>)], st
 
 fn case_ops(spec: &CaseSpec) -> Vec<String> {
     let mut ops = vec![world_to_line(&spec.world)];
-    ops.extend(request_lines(spec.wrapped, &spec.jobs));
-    if let Some(pairs) = requested_pairs(&spec.jobs) {
+    ops.extend(request_lines(spec));
+    if let Some(pairs) = effective_jobs(spec.form(), &spec.jobs).and_then(|js| requested_pairs(&js)) {
         ops.extend(oracle_lines(&spec.world, &pairs, None));
     }
     ops
@@ -536,7 +697,9 @@ fn case_ops(spec: &CaseSpec) -> Vec<String> {
 
 struct ParsedOps {
     world: Vec<WorldEntry>,
-    wrapped: Option<bool>,
+    wrapped: Option<Form>,
+    spell: u8,
+    warm: u8,
     jobs: Vec<JobSpec>,
     /// oracle lines in file order, grouped: (lib key, lib line, addr lines)
     oracle_libs: Vec<((String, String), String)>,
@@ -545,13 +708,16 @@ struct ParsedOps {
 }
 
 fn parse_ops(ops: &[String]) -> ParsedOps {
-    let mut p = ParsedOps { world: vec![], wrapped: None, jobs: vec![], oracle_libs: vec![], oracle_addrs: vec![], bad: false };
+    let mut p = ParsedOps { world: vec![], wrapped: None, spell: 0, warm: 0, jobs: vec![], oracle_libs: vec![], oracle_addrs: vec![], bad: false };
     for l in ops {
         let w: Vec<&str> = l.split_whitespace().collect();
         match w.as_slice() {
             ["world", ..] => p.world = world_from_line(l),
-            ["form", "jobs"] => p.wrapped = Some(true),
-            ["form", "single"] => p.wrapped = Some(false),
+            ["form", "jobs"] => p.wrapped = Some(Form::Jobs),
+            ["form", "single"] => p.wrapped = Some(Form::Single),
+            ["form", "both"] => p.wrapped = Some(Form::Both),
+            ["spell", k] => p.spell = k.parse().unwrap_or(0),
+            ["warm", k] => p.warm = k.parse().unwrap_or(0),
             ["job"] => p.jobs.push(JobSpec::default()),
             ["mod", n, i] => match p.jobs.last_mut() {
                 Some(j) => j.mm.push((unhx(n), unhx(i))),
@@ -584,7 +750,8 @@ fn parse_ops(ops: &[String]) -> ParsedOps {
     }
     match p.wrapped {
         None => p.bad = true,
-        Some(false) if p.jobs.len() != 1 => p.bad = true,
+        Some(Form::Single) if p.jobs.len() != 1 => p.bad = true,
+        Some(Form::Both) if p.jobs.is_empty() => p.bad = true,
         _ => {}
     }
     p
@@ -719,8 +886,41 @@ fn rand_breakpad_id(rng: &mut Rng) -> String {
     if s.chars().all(|c| c == '0') {
         s.replace_range(0..1, "1");
     }
-    s.push(*rng.pick(&['0', '1', 'a']));
+    // the age: `u32::from_str_radix(_, 16)` — one digit (Breakpad on non-Windows: 0), or 2..8 digits (PDB
+    // ages of incrementally linked binaries), leading zeros, upper / lower case
+    const HEX: [char; 22] = ['0', '1', '2', '3', '4', '5', '6', '7', '8', '9', 'a', 'b', 'c', 'd', 'e', 'f', 'A', 'B', 'C', 'D', 'E', 'F'];
+    match rng.below(10) {
+        0..=4 => s.push(*rng.pick(&['0', '1', 'a'])),
+        5 => {
+            for _ in 0..rng.range(2, 8) {
+                s.push(*rng.pick(&HEX));
+            }
+        }
+        6 => s.push_str("ffffffff"),
+        7 => {
+            s.push_str(&"0".repeat(rng.range(1, 9) as usize));
+            s.push(*rng.pick(&HEX));
+        }
+        8 => s.push_str(&format!("{:x}", rng.range(0x10, 0x1000))),
+        _ => s.push_str(&format!("{:X}", rng.range(0x10, 0xfffff))),
+    }
     s
+}
+
+/// another spelling of the same `DebugId` (or, for `k == 5`, of a different one)
+fn respell_id(rng: &mut Rng, id: &str) -> String {
+    if id.len() < 33 || !id.is_ascii() {
+        return id.to_lowercase();
+    }
+    let (uuid, age) = id.split_at(32);
+    match rng.below(6) {
+        0 => id.to_lowercase(),
+        1 => id.to_uppercase(),
+        2 => format!("{uuid}{}{age}", "0".repeat(rng.range(1, 12) as usize)),
+        3 => format!("{}+{age}", uuid.to_lowercase()),
+        4 => format!("{uuid}{}", age.trim_start_matches('0').to_string() + if age.trim_start_matches('0').is_empty() { "0" } else { "" }),
+        _ => format!("{uuid}{age}0"), // age * 16: another id
+    }
 }
 
 const FILE_POOL: &[&str] = &[
@@ -903,6 +1103,8 @@ struct FixtureInfo {
     rel: &'static str,
     id: String,
     interesting: Vec<u32>,
+    /// starts of the functions whose debug info is in external files (main-dwo / main-oso)
+    ext_interesting: Vec<u32>,
 }
 
 /// load every fixture once: breakpad id and symbol start addresses (for address generation only)
@@ -916,6 +1118,11 @@ fn fixture_infos() -> &'static Vec<FixtureInfo> {
             let r = catch_unwind(AssertUnwindSafe(|| block_on(sm.load_symbol_map_from_location(Loc(format!("fix:{rel}")), None))));
             if let Ok(Ok(map)) = r {
                 let id = map.debug_id().breakpad().to_string();
+                let ext_interesting: Vec<u32> = map
+                    .iter_symbols()
+                    .filter(|(_, n)| n.contains("_func") || n.as_ref() == "main" || n.contains("GLOBAL__sub_I"))
+                    .map(|(a, _)| a)
+                    .collect();
                 let mut starts: Vec<u32> = map.iter_symbols().map(|(a, _)| a).collect();
                 starts.sort_unstable();
                 starts.dedup();
@@ -930,7 +1137,7 @@ fn fixture_infos() -> &'static Vec<FixtureInfo> {
                     interesting.extend([last.wrapping_add(0x10000), last.wrapping_add(0x1000000)]);
                 }
                 interesting.extend([0, 1, u32::MAX]);
-                v.push(FixtureInfo { name, rel, id, interesting });
+                v.push(FixtureInfo { name, rel, id, interesting, ext_interesting });
             }
         }
         v
@@ -946,6 +1153,31 @@ const BAD_IDS: &[&str] = &[
     "0123456789ABCDEF0123456789ABCDEFG",
     " 123456789ABCDEF0123456789ABCDEF0",
     "ÄÖ",
+    "0123456789ABCDEF0123456789ABCDEF",        // 32 digits, no age
+    "01234567-89AB-CDEF-0123-456789ABCDEF-1",  // hyphenated
+    "01234567-89AB-CDEF-0123-456789ABCDEF1",
+    "0123456789ABCDEF0123456789ABCDEF-1",      // `-` age
+    "0123456789ABCDEF0123456789ABCDEF+",       // lone sign
+    "0123456789ABCDEF0123456789ABCDEF100000000", // age = 2^32
+    "0123456789ABCDEF0123456789ABCDEF1 ",
+    "0123456789ABCDEF0123456789ABCDEF0x1",
+    "0123456789abcdef0123456789abcde+1",       // `+` inside the uuid part
+    "000000000000000000000000000000000000",    // nil with a long age
+    "000000000",                               // PDB 2.0 form, nil
+    "12345678-1",                              // PDB 2.0 form, hyphen at 8
+    "1234567g1",
+    "0123456789ABCDEF01",                      // 17..31 characters
+    "{0123456789ABCDEF0123456789ABCDEF}1",
+];
+
+/// well-formed ids that are not the 33-character form (no file has them: the load fails, not the id check)
+const ODD_GOOD_IDS: &[&str] = &[
+    "4C4C4F571",                                 // PDB 2.0: timestamp + age
+    "+1234567+89abcde",                          // PDB 2.0 with signs (from_str_radix accepts `+`)
+    "0000000010",
+    "0123456789ABCDEF0123456789ABCDEF00000000000000001",
+    "0123456789abcdef0123456789abcdef+f",
+    "00000000000000000000000000000000001",       // nil uuid, age 1
 ];
 
 /// a library the generator knows addresses for
@@ -1030,6 +1262,7 @@ enum Family {
     Unrepresentable,
     KeyCollision,
     Excluded,
+    ExtHostile,
 }
 
 fn gen_case(rng: &mut Rng, family: Family) -> CaseSpec {
@@ -1043,9 +1276,10 @@ fn gen_case(rng: &mut Rng, family: Family) -> CaseSpec {
         let entry = match rng.below(4) {
             0 => (("unknown.so".to_string(), rand_breakpad_id(rng)), None), // no candidate
             1 => {
-                // a known name with a malformed id
+                // a known name with a malformed id (or a well-formed one of an unusual form)
                 let name = base.as_ref().map(|b| b.name.clone()).unwrap_or_else(|| "bad.pdb".into());
-                ((name, rng.pick(BAD_IDS).to_string()), base.clone())
+                let id = if rng.chance(1, 5) { rng.pick(ODD_GOOD_IDS).to_string() } else { rng.pick(BAD_IDS).to_string() };
+                ((name, id), base.clone())
             }
             2 => {
                 // a known name with another (valid) id: no candidate matches
@@ -1055,7 +1289,7 @@ fn gen_case(rng: &mut Rng, family: Family) -> CaseSpec {
             _ => {
                 // the same id in lower case / with different age: DebugId parsing decides
                 match &base {
-                    Some(b) => ((b.name.clone(), b.id.to_lowercase()), base.clone()),
+                    Some(b) => ((b.name.clone(), respell_id(rng, &b.id)), base.clone()),
                     None => (("".to_string(), rand_breakpad_id(rng)), None),
                 }
             }
@@ -1084,7 +1318,7 @@ fn gen_case(rng: &mut Rng, family: Family) -> CaseSpec {
             }
             jobs.push(JobSpec { mm, stacks: vec![st] });
         }
-        return CaseSpec { world: world2, wrapped: true, jobs };
+        return CaseSpec::new(world2, true, jobs);
     }
     let wrapped = rng.chance(3, 4);
     let njobs = if wrapped { *rng.pick(&[0u64, 1, 1, 2, 2, 3, 4]) } else { 1 };
@@ -1147,7 +1381,255 @@ fn gen_case(rng: &mut Rng, family: Family) -> CaseSpec {
         }
         _ => {}
     }
-    CaseSpec { world, wrapped: wrapped || jobs.len() != 1, jobs }
+    { let w = wrapped || jobs.len() != 1; decorate(rng, CaseSpec::new(world, w, jobs), family) }
+}
+
+/// request form `both`, JSON spelling, warm-up request: none of them may change the answer's content
+fn decorate(rng: &mut Rng, mut spec: CaseSpec, family: Family) -> CaseSpec {
+    if rng.chance(1, 4) {
+        spec.spell = rng.range(1, 4) as u8;
+    }
+    if rng.chance(1, 4) {
+        spec.warm = rng.range(1, 3) as u8;
+    }
+    if spec.wrapped && rng.chance(1, if family == Family::Unrepresentable { 2 } else { 8 }) {
+        // a top-level job next to the `jobs` list: ignored, unless the list does not parse
+        let top = if !spec.jobs.is_empty() && rng.chance(2, 3) {
+            let mut j = rng.pick(&spec.jobs).clone();
+            j.stacks.retain(|st| st.iter().all(|&(m, a)| u32_ok(m) && u32_ok(a) && (m as usize) < j.mm.len()));
+            j.stacks.truncate(2);
+            if rng.chance(1, 6) {
+                j.stacks.push(vec![(-1, 0)]); // neither form parses when the list is bad too
+            }
+            j
+        } else {
+            JobSpec::default()
+        };
+        spec.jobs.insert(0, top);
+        spec.both = true;
+    }
+    spec
+}
+
+/// fixtures whose debug info lives in external files (.dwo / OSO .o and .a): (debug name, external files,
+/// linkage names that occur as NUL-delimited DWARF strings in them)
+const EXT_FIXTURES: &[(&str, &[&str])] = &[
+    ("main-dwo", &["main.dwo", "file1.dwo", "file2.dwo", "file3.dwo"]),
+    ("main-oso", &["main.o", "file1.o", "libfile23.a"]),
+];
+const EXT_LINKAGE_NAMES: &[&str] = &[
+    "_Z11file1_func1i", "_Z11file1_func2i", "_Z11file2_func1i", "_Z11file2_func2i", "_Z11file3_func1i", "_Z11file3_func2i",
+];
+
+/// External-pass worlds with hostile values: the external files are served with renamed functions (the
+/// outer debug-info name differs from the symbol table's), some of them are missing.
+fn gen_ext_case(rng: &mut Rng) -> Option<CaseSpec> {
+    let infos = fixture_infos();
+    let (name, files) = *rng.pick(EXT_FIXTURES);
+    let fi = infos.iter().find(|f| f.name == name)?;
+    let mut world = vec![WorldEntry::Fix { name: fi.name.to_string(), rel: fi.rel.to_string() }];
+    for f in files {
+        match rng.below(5) {
+            0 => world.push(WorldEntry::Hide { base: f.to_string() }),
+            1..=3 => {
+                for ln in EXT_LINKAGE_NAMES {
+                    if rng.chance(2, 3) {
+                        // `\0_Z11file1_func1i\0` only matches a whole DWARF string (.debug_str.dwo / __debug_str),
+                        // not the Mach-O symbol table's `__Z11file1_func1i`
+                        let mut from = vec![0u8];
+                        from.extend(ln.as_bytes());
+                        from.push(0);
+                        let mut to = from.clone();
+                        let k = to.len() - 3;
+                        to[k] = *rng.pick(b"QXz_");
+                        if rng.chance(1, 4) {
+                            to[1] = b'z'; // no longer a mangled name: reported verbatim
+                        }
+                        world.push(WorldEntry::Patch { base: f.to_string(), from, to });
+                    }
+                }
+            }
+            _ => {}
+        }
+    }
+    let mut st: Vec<(i128, i128)> = Vec::new();
+    let pool = if fi.ext_interesting.is_empty() { &fi.interesting } else { &fi.ext_interesting };
+    for _ in 0..rng.range(4, 40) {
+        let a = *rng.pick(pool);
+        st.push((0, a.wrapping_add(rng.below(0x30) as u32) as i128));
+    }
+    let mut mm = vec![(fi.name.to_string(), fi.id.clone())];
+    if rng.chance(1, 3) {
+        mm.push(("unknown.so".into(), rand_breakpad_id(rng)));
+        st.push((1, 5));
+    }
+    let stacks = if rng.chance(1, 2) { let k = st.len() / 2; vec![st[..k].to_vec(), st[k..].to_vec()] } else { vec![st] };
+    let mut spec = CaseSpec::new(world, true, vec![JobSpec { mm, stacks }]);
+    if rng.chance(1, 3) {
+        spec.warm = rng.range(1, 3) as u8;
+    }
+    Some(spec)
+}
+
+/// Sizes real requests have and the random generator does not: memory maps of hundreds of entries with high
+/// module indices in use, thousands of distinct addresses of one library in one stack, dozens of jobs.
+fn size_specs(tier: Tier) -> Vec<(String, CaseSpec)> {
+    let mut v = Vec::new();
+    let mut rng = Rng::new(0x517E);
+    // 300-entry memory map; loadable synthetic maps at 0, 63, 64, 255, 299; (a) only those used, (b) all used
+    for variant in 0..2 {
+        let mut world = Vec::new();
+        let mut mm: Vec<(String, String)> = Vec::new();
+        let mut st: Vec<(i128, i128)> = Vec::new();
+        for k in 0..300usize {
+            if [0, 63, 64, 255, 299].contains(&k) {
+                let id = rand_breakpad_id(&mut rng);
+                let (entries, interesting) = gen_syn(&mut rng, false);
+                let name = format!("big{k}.so");
+                world.push(WorldEntry::Syn { name: name.clone(), id: id.clone(), entries });
+                mm.push((name, id));
+                for a in interesting.iter().take(6) {
+                    st.push((k as i128, *a as i128));
+                }
+            } else {
+                mm.push((format!("filler{k}.so"), if k % 7 == 3 { "bad-id".to_string() } else { rand_breakpad_id(&mut rng) }));
+                if variant == 1 {
+                    st.push((k as i128, (k * 16) as i128));
+                }
+            }
+        }
+        st.reverse();
+        v.push((format!("f-size-mm300-{variant}"), CaseSpec::new(world, variant == 0, vec![JobSpec { mm, stacks: vec![st] }])));
+    }
+    // thousands of distinct addresses of one library in one stack (the front-end sends such requests)
+    let infos = fixture_infos();
+    if let Some(fi) = infos.iter().find(|f| f.name == "firefox").or(infos.first()) {
+        let n: u32 = if tier == Tier::Quick { 2600 } else { 5200 };
+        let lo = fi.interesting.iter().copied().filter(|a| *a > 0x100 && *a < 0x4000_0000).min().unwrap_or(0x1000);
+        let hi = fi.interesting.iter().copied().filter(|a| *a < 0x4000_0000).max().unwrap_or(0x100000).max(lo + n);
+        let step = ((hi - lo) / n).max(1);
+        let mut st: Vec<(i128, i128)> = (0..n).map(|k| (0, (lo + k * step) as i128)).collect();
+        // not sorted, with repetitions
+        st.reverse();
+        for k in 0..50 {
+            let p = st[k * 7];
+            st.push(p);
+        }
+        v.push((
+            "f-size-addrs".into(),
+            CaseSpec::new(
+                vec![WorldEntry::Fix { name: fi.name.to_string(), rel: fi.rel.to_string() }],
+                true,
+                vec![JobSpec { mm: vec![(fi.name.to_string(), fi.id.clone())], stacks: vec![st] }],
+            ),
+        ));
+    }
+    // 40 jobs over three libraries at rotating indices
+    {
+        let mut world = Vec::new();
+        let mut libs = Vec::new();
+        for k in 0..3 {
+            let id = rand_breakpad_id(&mut rng);
+            let (entries, interesting) = gen_syn(&mut rng, false);
+            let name = format!("many{k}.so");
+            world.push(WorldEntry::Syn { name: name.clone(), id: id.clone(), entries });
+            libs.push(((name, id), interesting));
+        }
+        let mut jobs = Vec::new();
+        for j in 0..40usize {
+            let mut mm = Vec::new();
+            let mut st = Vec::new();
+            for k in 0..3usize {
+                let (l, interesting) = &libs[(j + k) % 3];
+                mm.push(l.clone());
+                if (j + k) % 5 != 0 {
+                    st.push((k as i128, interesting[(j * 3 + k) % interesting.len()] as i128));
+                }
+            }
+            jobs.push(JobSpec { mm, stacks: if j % 4 == 0 { vec![st.clone(), vec![], st] } else { vec![st] } });
+        }
+        v.push(("f-size-jobs40".into(), CaseSpec::new(world, true, jobs)));
+    }
+    v
+}
+
+/// One synthetic library requested under every spelling of its id (all must resolve identically), next to
+/// every malformed id and every unusual well-formed id.
+fn id_specs() -> Vec<(String, CaseSpec)> {
+    let mut v = Vec::new();
+    let mut rng = Rng::new(0x1D);
+    for (k, id) in ["DFB8E43AF2423D73A453AEB6A777EF75a", "0123456789abcdef0123456789ABCDEF1f2", "4C4C4F571"].iter().enumerate() {
+        let (entries, interesting) = gen_syn(&mut rng, false);
+        let world = vec![WorldEntry::Syn { name: "idlib".into(), id: id.to_string(), entries }];
+        let mut spellings: Vec<String> = vec![id.to_string(), id.to_lowercase(), id.to_uppercase()];
+        if id.len() >= 33 {
+            let (u, a) = id.split_at(32);
+            spellings.extend([format!("{u}000{a}"), format!("{u}+{a}"), format!("{u}{a}0"), u.to_string(), format!("{u}-{a}")]);
+        } else {
+            let (t, a) = id.split_at(8);
+            spellings.extend([format!("{t}0{a}"), format!("{t}+{a}"), format!("+{}{a}", &t[1..]), format!("{t}-{a}")]);
+        }
+        let mm: Vec<(String, String)> = spellings.iter().map(|i| ("idlib".to_string(), i.clone())).collect();
+        let st: Vec<(i128, i128)> = (0..mm.len()).map(|m| (m as i128, interesting[2 % interesting.len()] as i128)).collect();
+        v.push((format!("f-id-spellings-{k}"), CaseSpec::new(world, true, vec![JobSpec { mm, stacks: vec![st] }])));
+    }
+    let (entries, interesting) = gen_syn(&mut rng, false);
+    let good = "DFB8E43AF2423D73A453AEB6A777EF75a";
+    let world = vec![WorldEntry::Syn { name: "idlib".into(), id: good.into(), entries }];
+    for (k, id) in BAD_IDS.iter().chain(ODD_GOOD_IDS.iter()).enumerate() {
+        let mm = vec![("idlib".to_string(), good.to_string()), ("idlib".to_string(), id.to_string())];
+        let st = vec![(1, interesting[2 % interesting.len()] as i128), (0, interesting[2 % interesting.len()] as i128), (1, 0)];
+        v.push((format!("f-id-{k}"), CaseSpec::new(world.clone(), k % 2 == 0, vec![JobSpec { mm, stacks: vec![st] }])));
+    }
+    v
+}
+
+/// both request forms in one body; every JSON spelling
+fn form_specs(world: &[WorldEntry], lib: &(String, String), addrs: &[u32]) -> Vec<(String, CaseSpec)> {
+    let mut v = Vec::new();
+    let a = |k: usize| addrs[k % addrs.len()] as i128;
+    let top = JobSpec { mm: vec![lib.clone()], stacks: vec![vec![(0, a(1))]] };
+    let list = vec![
+        JobSpec { mm: vec![("u".into(), "x".into()), lib.clone()], stacks: vec![vec![(1, a(2)), (1, a(3))], vec![]] },
+        JobSpec { mm: vec![lib.clone()], stacks: vec![vec![(0, a(4))]] },
+    ];
+    let mk = |jobs: Vec<JobSpec>, both: bool, wrapped: bool, spell: u8| {
+        let mut c = CaseSpec::new(world.to_vec(), wrapped, jobs);
+        c.both = both;
+        c.spell = spell;
+        c
+    };
+    for spell in 0..=4u8 {
+        let mut jobs = vec![top.clone()];
+        jobs.extend(list.clone());
+        v.push((format!("f-form-both-{spell}"), mk(jobs, true, true, spell)));
+        v.push((format!("f-form-jobs-{spell}"), mk(list.clone(), false, true, spell)));
+        v.push((format!("f-form-single-{spell}"), mk(vec![top.clone()], false, false, spell)));
+        // the list has a number that is not a u32: the top-level job is answered
+        let mut bad = list.clone();
+        bad[1].stacks[0].push((0, -1));
+        let mut jobs = vec![top.clone()];
+        jobs.extend(bad.clone());
+        v.push((format!("f-form-both-fallthrough-{spell}"), mk(jobs, true, true, spell)));
+        // both bad: parse error; list fine but bad index: the error, not the top-level job
+        let mut jobs = vec![JobSpec { mm: vec![lib.clone()], stacks: vec![vec![(1i128 << 32, 0)]] }];
+        jobs.extend(bad);
+        v.push((format!("f-form-both-bad-{spell}"), mk(jobs, true, true, spell)));
+        let mut idx = list.clone();
+        idx[0].stacks[0].push((2, 0));
+        let mut jobs = vec![top.clone()];
+        jobs.extend(idx);
+        v.push((format!("f-form-both-badindex-{spell}"), mk(jobs, true, true, spell)));
+    }
+    // `jobs: []` next to a top-level job: zero results
+    v.push(("f-form-both-empty-list".into(), mk(vec![top.clone()], true, true, 0)));
+    // every warm-up kind
+    for warm in 1..=3u8 {
+        let mut c = mk(list.clone(), false, true, 0);
+        c.warm = warm;
+        v.push((format!("f-warm-{warm}"), c));
+    }
+    v
 }
 
 fn fixed_specs(tier: Tier) -> Vec<(String, CaseSpec)> {
@@ -1163,13 +1645,13 @@ fn fixed_specs(tier: Tier) -> Vec<(String, CaseSpec)> {
     for (k, a) in addrs.iter().enumerate() {
         v.push((
             format!("f-addr-{k}"),
-            CaseSpec { world: world.clone(), wrapped: k % 2 == 0, jobs: vec![JobSpec { mm: vec![lib.clone()], stacks: vec![vec![(0, *a as i128)]] }] },
+            CaseSpec::new(world.clone(), k % 2 == 0, vec![JobSpec { mm: vec![lib.clone()], stacks: vec![vec![(0, *a as i128)]] }]),
         ));
     }
     // all of them in one stack, reversed, with duplicates
     let mut all: Vec<(i128, i128)> = addrs.iter().rev().map(|a| (0, *a as i128)).collect();
     all.extend(addrs.iter().map(|a| (0, *a as i128)));
-    v.push(("f-all".into(), CaseSpec { world: world.clone(), wrapped: true, jobs: vec![JobSpec { mm: vec![lib.clone()], stacks: vec![all] }] }));
+    v.push(("f-all".into(), CaseSpec::new(world.clone(), true, vec![JobSpec { mm: vec![lib.clone()], stacks: vec![all] }])));
     // degenerate shapes
     let shapes: Vec<(&str, bool, Vec<JobSpec>)> = vec![
         ("no-jobs", true, vec![]),
@@ -1198,7 +1680,7 @@ fn fixed_specs(tier: Tier) -> Vec<(String, CaseSpec)> {
         ),
     ];
     for (n, wrapped, jobs) in shapes {
-        v.push((format!("f-{n}"), CaseSpec { world: world.clone(), wrapped, jobs }));
+        v.push((format!("f-{n}"), CaseSpec::new(world.clone(), wrapped, jobs)));
     }
     // out-of-range module index at every position of a small request
     let base = vec![
@@ -1212,9 +1694,20 @@ fn fixed_specs(tier: Tier) -> Vec<(String, CaseSpec)> {
                 for bad in [base[j].mm.len() as i128, u32::MAX as i128, -1, 1i128 << 32] {
                     let mut jobs = base.clone();
                     jobs[j].stacks[s].insert(pos, (bad, 3));
-                    v.push((format!("f-badidx-{k}"), CaseSpec { world: world.clone(), wrapped: true, jobs }));
+                    v.push((format!("f-badidx-{k}"), CaseSpec::new(world.clone(), true, jobs)));
                     k += 1;
                 }
+            }
+        }
+    }
+    v.extend(form_specs(&world, &lib, &addrs));
+    v.extend(id_specs());
+    v.extend(size_specs(tier));
+    {
+        let mut rng = Rng::new(0xE87);
+        for i in 0..(if tier == Tier::Quick { 40 } else { 400 }) {
+            if let Some(c) = gen_ext_case(&mut rng) {
+                v.push((format!("f-ext-{i}"), c));
             }
         }
     }
@@ -1230,11 +1723,11 @@ fn fixed_specs(tier: Tier) -> Vec<(String, CaseSpec)> {
         let st: Vec<(i128, i128)> = fi.interesting.iter().step_by(step).map(|a| (0, *a as i128)).collect();
         v.push((
             format!("f-fixture-{}", fi.name),
-            CaseSpec {
-                world: vec![WorldEntry::Fix { name: fi.name.to_string(), rel: fi.rel.to_string() }],
-                wrapped: true,
-                jobs: vec![JobSpec { mm: vec![(fi.name.to_string(), fi.id.clone())], stacks: vec![st] }],
-            },
+            CaseSpec::new(
+                vec![WorldEntry::Fix { name: fi.name.to_string(), rel: fi.rel.to_string() }],
+                true,
+                vec![JobSpec { mm: vec![(fi.name.to_string(), fi.id.clone())], stacks: vec![st] }],
+            ),
         ));
     }
     v
@@ -1263,8 +1756,14 @@ impl Prop for C07 {
             3 => Family::Unrepresentable,
             4 => Family::KeyCollision,
             5 => Family::Excluded,
+            6 => Family::ExtHostile,
             _ => Family::Valid,
         };
+        if family == Family::ExtHostile {
+            if let Some(c) = gen_ext_case(rng) {
+                return case_ops(&c);
+            }
+        }
         case_ops(&gen_case(rng, family))
     }
     fn execute(&self, ops: &[String], stats: &mut Stats) -> Vec<String> {
@@ -1273,14 +1772,24 @@ impl Prop for C07 {
             stats.bump("bad_ops");
             return vec!["bad-op".into()];
         }
-        let wrapped = p.wrapped.unwrap();
-        stats.bump(if wrapped { "form_jobs" } else { "form_single" });
+        let form = p.wrapped.unwrap();
+        stats.bump(match form { Form::Jobs => "form_jobs", Form::Single => "form_single", Form::Both => "form_both" });
+        stats.bump(&format!("spell_{}", p.spell));
+        stats.bump(&format!("warm_{}", p.warm));
+        for j in &p.jobs {
+            for (_, id) in &j.mm {
+                stats.bump(&format!("mm_id_len_{}", match id.len() { 0..=8 => "0-8", 9..=16 => "9-16", 17..=31 => "17-31", 32 => "32", 33 => "33", 34..=40 => "34-40", _ => "41+" }));
+            }
+            stats.bump(&format!("mm_len_{}", match j.mm.len() { 0..=6 => "0-6", 7..=63 => "7-63", 64..=255 => "64-255", _ => "256+" }));
+        }
         stats.add("jobs", p.jobs.len() as u64);
         for e in &p.world {
             stats.bump(match e {
                 WorldEntry::Sym { .. } => "world_sym",
                 WorldEntry::Fix { .. } => "world_fixture",
                 WorldEntry::Syn { .. } => "world_syn",
+                WorldEntry::Patch { .. } => "world_patch",
+                WorldEntry::Hide { .. } => "world_hide",
             });
         }
         for j in &p.jobs {
@@ -1294,19 +1803,32 @@ impl Prop for C07 {
             }
         }
         // is the oracle of the ops complete for this request? (it is unless the shrinker removed lines)
-        let pairs = requested_pairs(&p.jobs);
+        let eff = effective_jobs(form, &p.jobs);
+        if form == Form::Both {
+            stats.bump(match &eff { None => "both_parse_error", Some(e) if p.jobs.len() > 1 && e.len() == p.jobs.len() - 1 => "both_jobs_win", Some(_) => "both_fallthrough_or_empty" });
+        }
+        let pairs = eff.as_ref().and_then(|js| requested_pairs(js));
         match &pairs {
             None => stats.bump("request_with_bad_index_or_number"),
             Some(pairs) => {
-                let libs: HashMap<&(String, String), bool> =
-                    p.oracle_libs.iter().map(|(k, l)| (k, l.ends_with(" ok"))).collect();
-                let addrs: BTreeSet<(&(String, String), u32)> = p.oracle_addrs.iter().map(|(k, a, _)| (k, *a)).collect();
+                // keyed like the model's tables: debug name + `DebugId` (two spellings of one id share their
+                // lines); a malformed id needs no lines (the model decides it by itself)
+                let okey = |k: &(String, String)| -> Option<(String, String)> {
+                    match DebugId::from_breakpad(&k.1) {
+                        Ok(d) if !d.is_nil() => Some((k.0.clone(), d.breakpad().to_string())),
+                        _ => None,
+                    }
+                };
+                let libs: HashMap<(String, String), bool> =
+                    p.oracle_libs.iter().filter_map(|(k, l)| okey(k).map(|k| (k, l.ends_with(" ok")))).collect();
+                let addrs: BTreeSet<((String, String), u32)> = p.oracle_addrs.iter().filter_map(|(k, a, _)| okey(k).map(|k| (k, *a))).collect();
                 for (lib, aa) in pairs {
-                    match libs.get(lib) {
+                    let Some(lib) = okey(lib) else { continue };
+                    match libs.get(&lib) {
                         None => return vec!["incomplete-oracle".into()],
                         Some(false) => {}
                         Some(true) => {
-                            if aa.iter().any(|a| !addrs.contains(&(lib, *a))) {
+                            if aa.iter().any(|a| !addrs.contains(&(lib.clone(), *a))) {
                                 return vec!["incomplete-oracle".into()];
                             }
                         }
@@ -1315,8 +1837,9 @@ impl Prop for C07 {
                 if pairs.len() >= 2 {
                     stats.bump("requests_with_2plus_libs");
                 }
+                stats.bump(&format!("max_addrs_per_lib_{}", match pairs.iter().map(|(_, a)| a.len()).max().unwrap_or(0) { 0..=127 => "0-127", 128..=1023 => "128-1023", 1024..=4095 => "1024-4095", _ => "4096+" }));
                 let mut per_job_libs: Vec<BTreeSet<&(String, String)>> = Vec::new();
-                for j in &p.jobs {
+                for j in eff.as_ref().unwrap() {
                     per_job_libs.push(j.stacks.iter().flatten().filter_map(|(m, _)| j.mm.get(*m as usize)).collect());
                 }
                 let shared = per_job_libs.iter().enumerate().any(|(i, a)| per_job_libs.iter().skip(i + 1).any(|b| a.intersection(b).next().is_some()));
@@ -1326,12 +1849,51 @@ impl Prop for C07 {
             }
         }
         // the implementation
-        let body = request_json(wrapped, &p.jobs);
+        let body = request_json(form, p.spell, &p.jobs);
+        // the request sent first on the same symbol manager and Api (its answer is not looked at: the
+        // answer to the real request must not depend on what was asked before)
+        let warm_body: Option<String> = match p.warm {
+            0 => None,
+            1 => {
+                // the even-position frames of every stack
+                let jobs: Vec<JobSpec> = p
+                    .jobs
+                    .iter()
+                    .map(|j| JobSpec { mm: j.mm.clone(), stacks: j.stacks.iter().map(|st| st.iter().step_by(2).copied().collect()).collect() })
+                    .collect();
+                Some(request_json(form, 0, &jobs))
+            }
+            2 => Some(body.clone()),
+            _ => {
+                // the same libraries at neighbouring addresses, memory maps reversed
+                let jobs: Vec<JobSpec> = p
+                    .jobs
+                    .iter()
+                    .map(|j| {
+                        let n = j.mm.len() as i128;
+                        JobSpec {
+                            mm: j.mm.iter().rev().cloned().collect(),
+                            stacks: j
+                                .stacks
+                                .iter()
+                                .map(|st| st.iter().map(|&(m, a)| (if (0..n).contains(&m) { n - 1 - m } else { m }, if a >= 0 && a < u32::MAX as i128 { a + 1 } else { a })).collect())
+                                .collect(),
+                        }
+                    })
+                    .collect();
+                Some(request_json(form, 0, &jobs))
+            }
+        };
         let world = p.world.clone();
         let r = catch_unwind(AssertUnwindSafe(|| {
             let sm = SymbolManager::with_helper(Helper { world });
-            let api = Api::new(&sm);
-            block_on(api.query_api("/symbolicate/v5", &body))
+            // `Api` is a borrowed view of the symbol manager (consumed by `query_api`); all state lives in `sm`
+            if let Some(w) = &warm_body {
+                // (it may touch an excluded point of a synthetic map that the real request avoids: its own
+                // panic is not the case's outcome)
+                let _ = catch_unwind(AssertUnwindSafe(|| block_on(Api::new(&sm).query_api("/symbolicate/v5", w))));
+            }
+            block_on(Api::new(&sm).query_api("/symbolicate/v5", &body))
         }));
         let mut out = match r {
             Ok(text) => canon_response(&text, stats),
